@@ -18,7 +18,7 @@ claim('C17', 'c17_version.c',
       'are checked against the 128-byte buffers; ordering facts are checked on generated well-formed versions with symbolic digits.',
       'DESIGN.md section 4, C17')
 claim('C12', 'c12_split.c',
-      'CBMC differential check: spiftool_split / tok_eval / num_words / get_word / get_pword / join vs a reference tokenizer, symbolic input bytes in exact-size objects',
+      'CBMC differential check: spiftool_split / num_words / get_word / get_pword / join vs a reference tokenizer, symbolic input bytes in exact-size objects',
       'For every input up to the stated length over {a,b,space,comma,",\',\\} (symbolic) and both delimiter sets, the token list equals the '
       'reference grammar\'s, the word utilities agree with the reference word scanner for every index, and no byte past the terminator is read.',
       'DESIGN.md section 4, C12')
